@@ -165,6 +165,10 @@ func init() {
 				case "B":
 					enc.Bytes()
 					i++
+				case "ST":
+					gr.SetTransform(transformsOfTok(t[i+1])...)
+					ge.SetTransform(transformsOfTok(t[i+1])...)
+					i += 2
 				case "NEW":
 					// what came before was an earlier use of the same Encoder and Renderer
 					z1.log = nil
